@@ -49,3 +49,41 @@ Fixpoint discs_down (c : list header) (top : Z) (n : nat) : list ev :=
   end.
 Definition disconnects (before : list header) (f : Z) : list ev :=
   discs_down before (zlen before - 1) (zn (zlen before - 1 - f)).
+
+(* ---------- the positive reorganisation half as a test on plain lists ----------
+   (for the trace monitor, C02/Replay.v).  [listened] is the value of
+   [listened_to] in the state before the message.  The fork height is where
+   the predecessor of the first header is stored.  Some e: the hypotheses of
+   C02_heavier_branch_adopted (branch ends below the next checkpoint) or of
+   C02_heavier_branch_adopted_to_checkpoint (branch matches the checkpoints)
+   hold, and e is the chain the theorem demands afterwards.
+   C02_monitor_reorg_sound: the test demands nothing else. *)
+Definition fork_height (before msg : list header) : option Z :=
+  match msg with
+  | m :: _ => match fetch_header before (hprev m) with Some (_, h) => Some h | None => None end
+  | [] => None
+  end.
+
+Definition must_adopt_reorg (P : params) (now : Z) (before msg : list header) (listened : bool)
+  : option (list header) :=
+  match fork_height before msg with
+  | None => None
+  | Some f =>
+    let pre := take (zn (f + 1)) before in
+    if forks_at before msg f
+       && (length (valid_run P now pre msg) =? length msg)%nat
+       && (reached_cp P before <=? f)
+       && (work_of msg >? work_of (drop (zn (f + 1)) before))
+       && listened
+    then
+      if below_next_checkpoint P before (f + zlen msg) then Some (pre ++ msg)
+      else if checkpoints_ok P (pre ++ msg) then Some (pre ++ upto_checkpoint P f msg)
+      else None
+    else None
+  end.
+
+(* what the handler's peer condition looks at: the stored chain, who the sync
+   peer is, and the announced / starting heights of the peers *)
+Definition obs_state (before : list header) (sync : option Z) (ps : list peer) : state :=
+  {| chain := before; fchain := []; hl := []; syncPeer := sync; cands := []; nextCp := None;
+     peers := ps; ftipVar := 0; events := []; trap := false |}.
